@@ -380,8 +380,10 @@ func runC20(c *Ctx) {
 
 	// --- C20.carry
 	c.errorFlowRule("C20.carry", reopen, nil, false)
+	c.errorCarriedOnPaths("C20.carry", reopen, nil)
 	if doRe != nil {
 		c.errorFlowRule("C20.carry", doRe, nil, false)
+		c.errorCarriedOnPaths("C20.carry", doRe, nil)
 	}
 	if graphReopen != nil {
 		c.accumulateRule("C20.carry", graphReopen)
